@@ -5,6 +5,7 @@ mod execx;
 mod errors;
 mod export;
 mod gen;
+mod iso;
 mod oracle;
 mod tree;
 mod probe;
@@ -52,6 +53,7 @@ fn main() {
     let mut rep = report::Report::new(&prop, &tier, seed);
     match prop.as_str() {
         "C01" => props::c01::run(&mut rep, &tier, seed),
+        "C02" => props::c02::run(&mut rep, &tier, seed),
         "C13" => props::c13::run(&mut rep, &tier, seed),
         "C14" => props::c14::run(&mut rep, &tier, seed),
         "C17" => props::c17::run(&mut rep, &tier, seed),
